@@ -29,7 +29,7 @@
 From Coq Require Import ZArith List Bool PArith.
 From Tickit Require Import LifeDefs LifeLemmas LifeInv LifeClose LifeQueue LifeDestroy LifeFate LifeSpec LifeProofs LifeAgree LifeWitness LifePenDefs LifePen.
 From Tickit Require BindDefs LifeBindDefs LifeBindSim LifeBindSafe.
-From Tickit Require Import LifeSpecEv LifeAgreeEv LifeEvents.
+From Tickit Require Import LifeSpecEv LifeAgreeEv LifeEvents LifeFuel.
 Import ListNotations.
 Local Open Scope Z_scope.
 
@@ -142,6 +142,20 @@ Theorem C08_events_nonvacuous : exists h,
   (6 <= length (filter (fun o => match o with OFrameRef _ => true | _ => false end) (tr h)))%nat.
 Proof. exact events_nonvacuous. Qed.
 Print Assumptions C08_events_nonvacuous.
+
+(* FUEL.  More fuel never changes a result: a run that does not stop for lack of fuel gives the same verdict with any
+   larger fuel (every function of the model, the event dispatch included; fm_dispatch, fm_life, ...) *)
+Theorem C08_fuel_monotone : forall l fuel fuel' k h, (fuel <= fuel')%nat ->
+  (forall s, run_script_from fixed fuel l k h <> VNoFuel s) ->
+  run_script_from fixed fuel' l k h = run_script_from fixed fuel l k h.
+Proof. exact fuel_monotone. Qed.
+Print Assumptions C08_fuel_monotone.
+
+(* ... but with events there is no fuel bound, in the model as in the library: a key handler that sends the key again
+   recurses for ever; every fuel runs out *)
+Theorem C08_fuel_bound_refuted_events : forall fuel, exists s, run_script fixed fuel loop_script = VNoFuel s.
+Proof. exact no_fuel_bound_with_events. Qed.
+Print Assumptions C08_fuel_bound_refuted_events.
 
 (* the render buffer's pen stack (model LifePenDefs.v of setpen / save / savepen / restore, whole-line
    text and erase, clear, reset, flush and destroy in src/renderbuffer.c): the invariant [rinv]
